@@ -3,7 +3,8 @@
     [Print Assumptions]. *)
 From Coq Require Import List ZArith Bool.
 From Webp Require Import Base.Res Vp8l.Vp8lPixel Vp8l.Vp8lArr Vp8l.Vp8lPrefix Vp8l.Vp8lTransforms Vp8l.Vp8lSpec
-  Vp8l.Vp8lEmit Vp8l.Vp8lEmitDecode Vp8l.Vp8lImport Vp8l.Vp8lRoundtrip.
+  Vp8l.Vp8lEmit Vp8l.Vp8lEmitDecode Vp8l.Vp8lImport Vp8l.Vp8lRoundtrip Vp8l.Vp8lWindow.
+From WebpGen Require Consts.
 Import ListNotations.
 Open Scope Z_scope.
 
@@ -91,3 +92,27 @@ Print Assumptions C01_cleanup_visible.
 Theorem C01_cleanup_transparent : forall p, pa p = 0 -> cleanup false p = px_zero.
 Proof. exact cleanup_transparent. Qed.
 Print Assumptions C01_cleanup_transparent.
+
+(** ** Encoder side of the LZ77 alphabets, tied to the constants of the source
+    (regenerated on every run): every distance inside the encoder's window is
+    written as code 120 + distance, which denotes that distance for every image
+    width and whose prefix symbol is inside the 40-symbol distance alphabet; every
+    match length up to the encoder's maximum has a symbol inside the 24-symbol
+    length alphabet.  (Well-formed plans need exactly this: a used symbol must have
+    a code word.) *)
+Theorem C01_window_distance_symbol_in_alphabet : forall dist,
+  1 <= dist <= WebpGen.Consts.lossless_windowSize ->
+  0 <= fst (fst (lz_prefix (WebpGen.Consts.lossless_CodeToPlaneCodesCount + dist))) < WebpGen.Consts.lossless_NumDistanceCodes.
+Proof. exact window_distance_symbol_in_alphabet. Qed.
+Print Assumptions C01_window_distance_symbol_in_alphabet.
+
+Theorem C01_window_distance_code_denotes_distance : forall w dist,
+  1 <= dist -> plane_to_dist w (120 + dist) = dist.
+Proof. exact window_distance_code_denotes_distance. Qed.
+Print Assumptions C01_window_distance_code_denotes_distance.
+
+Theorem C01_max_length_symbol_in_alphabet : forall len,
+  1 <= len <= WebpGen.Consts.lossless_maxLength ->
+  0 <= fst (fst (lz_prefix len)) < WebpGen.Consts.lossless_NumLengthCodes.
+Proof. exact max_length_symbol_in_alphabet. Qed.
+Print Assumptions C01_max_length_symbol_in_alphabet.
